@@ -203,7 +203,20 @@ SETEXT_LINES = ["===", "---", "=", "-", "== ", "--  ", "=== x", "--- x", "= =", 
                 "  lazy", "***", "# h", "```", "    code", "1. x", "- a", "> q", ""]
 
 
+HTML_BLOCKS = [["<!-- a", "b", "c -->"], ["<script>", "let x = 1;", "", "y", "</script>"], ["<pre>", "  p", "</pre> tail"], ["<?php", "echo 1;", "?>"],
+               ["<![CDATA[", "x", "]]>", "after"], ["<!DOCTYPE", "html>"], ["<style>", "a{}", "</style>"], ["<div>", "x", "", "y"], ["<textarea>", "\tt", "</TEXTAREA>"],
+               ["title", "more", "==="], ["t1", "t2", "--- "], ["<b>", "x"]]
+
+
 def rand_more(rng) -> str:
+    if rng.random() < 0.35:
+        # a multi-line HTML block / setext heading wrapped as a whole in a container (every line behind the container's prefix)
+        blk = rng.choice(HTML_BLOCKS)
+        first, rest = rng.choice([("> ", "> "), ("> > ", "> > "), ("- ", "  "), ("1. ", "   "), ("- > ", "  > "), ("> - ", ">   "), (">", ">"), ("   ", "   ")])
+        ls = [first + blk[0]] + [rest + x for x in blk[1:]]
+        pre = [rng.choice(LINES + SETEXT_LINES)] if rng.random() < 0.4 else []
+        post = [rng.choice(LINES + HTML_LINES)] if rng.random() < 0.5 else []
+        return "\n".join(pre + ls + post) + rng.choice(TAILS)
     n = rng.randint(0, 8)
     out = []
     for _ in range(n):
